@@ -483,8 +483,8 @@ def run(ctx):
     for wn in world_names:
         for ci, ops in enumerate(census):
             s = 1000 + ci
-            evs, drv = D.replay_history(worlds[wn], np.random.default_rng(s), ops, max_held=max_held, perturb_nac=False)
-            record(evs, drv, wn, s, "census", False)
+            evs, drv = D.replay_history(worlds[wn], np.random.default_rng(s), ops, max_held=max_held, perturb_nac=True)
+            record(evs, drv, wn, s, "census", True)
 
     # 4. code -> spec: random histories
     for j in range(n_random):
@@ -537,11 +537,11 @@ def run(ctx):
 
     nq = len(margins)
     ctx.extra["queries_compared_with_fresh_object"] = nq
-    finite = [m for m in margins if m <= 1.0]
-    ctx.extra["max_query_error_over_tolerance"] = max(finite) if finite else None  # of the queries that agree
-    ctx.extra["queries_differing_from_fresh_object"] = nq - len(finite)  # each one is judged by TLC (Impl / known)
-    if finite and max(finite) > 1e-3:
-        raise tlcmod.MachineryError("query comparison margin %.3g of the tolerance is above 1e-3 (self-check)" % max(finite))
+    agree = [m for m in margins if m <= D.Driver.BOUND]
+    ctx.extra["max_query_error_over_tolerance"] = max(agree) if agree else None  # of the queries that agree
+    ctx.extra["query_agreement_bound_over_tolerance"] = D.Driver.BOUND
+    # every other query is a disagreement, judged by TLC (Impl.. violation, or a known consequence of aliasing)
+    ctx.extra["queries_differing_from_fresh_object"] = nq - len(agree)
     # TLC validates every history (batches of <= 150 histories)
     t2 = time.time()
     B = 150
